@@ -110,7 +110,26 @@ def check_tree(sp, stats=None):
         for n in allnodes:
             if not both_modes(validate.node, n, nodeset, "validate.node", case, stats):
                 bad += 1
+        # other call forms of the same walk: started at an inner node, at a copy of an inner node (a copy keeps the
+        # original's parent pointer), at a node constructed with parent= and never attached, at a removed child (its
+        # parent pointer stays): "any tree whatsoever" includes trees whose top node points at a parent that does not list it
+        if len(allnodes) >= 2:
+            pick = allnodes[1 + h_pick(sp) % (len(allnodes) - 1)]
+            both_modes(validate.tree, pick, nodeset, "validate.tree(inner node)", case, stats)
+            cp = pick.copy()
+            both_modes(validate.tree, cp, {id(x) for x in treegen.nodes(cp)}, "validate.tree(copy of an inner node)", case, stats)
+            loose = Node(pick.name, parent=pick.parent, content=pick.content)
+            both_modes(validate.tree, loose, {id(loose)}, "validate.tree(node constructed with parent=, not attached)", case, stats)
+            par = pick.parent
+            if par is not None and pick in par.children:
+                par.remove_child(pick)
+                both_modes(validate.tree, pick, nodeset, "validate.tree(removed child)", case, stats)
     return bad
+
+
+def h_pick(sp):
+    from vf.runner import h64
+    return h64(sp)
 
 
 # ------------------------------------------------------------------ generators
